@@ -168,7 +168,7 @@ DEPS_ERR = ('spl-program-error = { path = "%s/program-error" }\nsolana-program-e
 def macro_lab_c19(pid, tier, seed, rundir, log):
     """C19: generated error enums through #[spl_program_error], IntoProgramError, ToStr (rustc in the loop)."""
     rng = random.Random(seed * 7919 + 19)
-    n_items = 40 if tier == "thorough" else 12
+    n_items = 50 if tier == "thorough" else 17
     labdir = os.path.join(BUILD, "macrolab", "C19")
     _lab_crate(labdir, DEPS_ERR)
     res = {"name": "macro-lab-C19", "items": [], "violations": [], "ties_broken": [], "evaluations": 0,
@@ -178,7 +178,10 @@ def macro_lab_c19(pid, tier, seed, rundir, log):
     # found once by brute force (harness/src/bin/findname.rs): Bnd3841729940 hashes to exactly the minimum 7000 at
     # nonce 0 (must be accepted there: `>=`), Bnd830103612 to 6999 (must be rejected, the nonce advances), the
     # NonceErr names need a non-zero nonce as well
-    corpus_names = ["Bnd3841729940", "NonceErr246485", "Bnd830103612", "ExampleLibraryError", "NonceErr1050261", "E", "TokenError"]
+    # Bnd734120692 / Bnd959397376 / Bnd883233730 hash (nonce 0) to u32::MAX - 4 / - 1 / - 8: with exactly 5 / 2 / 9 variants the
+    # enum ends on u32::MAX — it fits, the start is the nonce-0 value, no later nonce may be taken
+    exact_fit = {"Bnd734120692": 5, "Bnd959397376": 2, "Bnd883233730": 9}
+    corpus_names = ["Bnd3841729940", "NonceErr246485", "Bnd830103612", "Bnd734120692", "ExampleLibraryError", "Bnd959397376", "NonceErr1050261", "Bnd883233730", "E", "TokenError"]
     for k in range(n_items):
         kind = ["spl", "spl_hash", "derive", "tostr", "spl_crate"][k % 5]
         name = corpus_names[k // 5] if kind == "spl_hash" and k // 5 < len(corpus_names) else _ident(rng)
@@ -186,6 +189,8 @@ def macro_lab_c19(pid, tier, seed, rundir, log):
             name = _ident(rng)
         used.add(name)
         nv = rng.choice([1, 2, 3, 5, 12])
+        if kind == "spl_hash" and name in exact_fit:
+            nv = exact_fit[name]
         vs, seen = [], set()
         nxt = 0
         for j in range(nv):
@@ -334,21 +339,28 @@ GENERICS = [
     ("<T: Clone, const N: usize = 3>", "<u8, 5>", ""),
     ("<T = u8>", "<u64>", ""),
     ("<'a, T: 'a + Clone, const N: usize>", "<'static, u8, 2>", "where T: Default"),
+    # dynamically sized items: a `?Sized` parameter (inline or in the where-clause) used as the struct's last field
+    ("<T: ?Sized>", "<str>", ""),
+    ("<T> ", "<[u8]>", "where T: ?Sized"),
+    ("<'a, T: ?Sized + 'a>", "<'static, dyn core::fmt::Debug>", ""),
+    ("<T: ?Sized, U>", "<[u16], u8>", "where U: Copy"),
 ]
 
 
-def _fields(gen):
+def _fields(gen, unsized_tail=False):
     f = []
     if "'a" in gen:
         f.append("r: &'a [u8]")
     if "'b" in gen:
         f.append("r: &'b [u8]")
-    if "T" in gen:
+    if "T" in gen and not unsized_tail:
         f.append("t: core::marker::PhantomData<T>")
     if "U" in gen:
         f.append("u: core::marker::PhantomData<U>")
     if "N" in gen:
         f.append("n: [u8; N]")
+    if "T" in gen and unsized_tail:
+        f.append("tail: T")          # the unsized field must be the last one
     return f
 
 
@@ -369,7 +381,7 @@ def macro_lab_c18(pid, tier, seed, rundir, log):
         lit = _rust_str(s, rng)
         is_enum = (k % 3 == 2)
         extra = rng.choice(["", "#[allow(dead_code)]\n", "#[repr(C)]\n"]) if not is_enum else ""
-        fields = _fields(gen)
+        fields = _fields(gen, unsized_tail=("?Sized" in gen + where) and not is_enum)
         if is_enum:
             ph = ", ".join(x.split(": ")[1] for x in fields)
             body = "enum I%d%s %s { A, B(%s) }" % (k, gen, where, ph) if fields else "enum I%d%s %s { A, B }" % (k, gen, where)
@@ -455,6 +467,25 @@ def macro_lab_c15(pid, tier, seed, rundir, log):
         main.append("mod item_%d;" % k)
         calls.append("    probe(%s);" % val)
         res["items"].append({"generics": gen or "(none)", "where": where, "enum": is_enum})
+    # items that are zero-sized IN MEMORY: a unit struct (empty encoding), a one-variant enum (one byte: the variant index) and a
+    # struct made of such enums (three bytes) — the size in memory says nothing about the encoded length
+    derives = "#[derive(Clone, Debug, PartialEq, BorshSerialize, BorshDeserialize, SplBorshVariableLenPack)]"
+    zst = [("pub struct I%d;", "item_%d::I%d", "unit struct"),
+           ("pub enum I%d { Yes }", "item_%d::I%d::Yes", "one-variant enum"),
+           ("#[derive(Clone, Debug, PartialEq, BorshSerialize, BorshDeserialize)]\npub enum Only%d { Only }\n" + derives + "\npub struct I%d { pub a: Only%d, pub b: [Only%d; 2] }",
+            "item_%d::I%d { a: item_%d::Only%d::Only, b: [item_%d::Only%d::Only, item_%d::Only%d::Only] }", "struct of one-variant enums")]
+    for j, (body, val, what) in enumerate(zst):
+        k = len(shapes) + j
+        body = body.replace("%d", str(k))
+        if not body.startswith("#[derive"):
+            body = derives + "\n" + body
+        src = ("use borsh::{BorshDeserialize, BorshSerialize};\nuse spl_discriminator::SplDiscriminate;\nuse spl_type_length_value::SplBorshVariableLenPack;\n" + body + "\n")
+        with open(os.path.join(labdir, "src", "item_%d.rs" % k), "w") as f:
+            f.write(src)
+        main.append("mod item_%d;" % k)
+        calls.append("    probe(%s);" % val.replace("%d", str(k)))
+        res["items"].append({"generics": "(none)", "where": what, "enum": "enum" in what})
+        shapes.append((what, "", "", "", ""))
     main.append("fn main() {")
     main += calls
     main.append("}")
